@@ -153,6 +153,7 @@ var (
 )
 
 type world struct {
+	latePanic    string
 	rmProbes     []rmProbe
 	rmLate       []chan rmProbe
 	c            *Case
@@ -1395,7 +1396,69 @@ func Exec(c *Case, o *Opts) (res Result) {
 		InOp.Store(false)
 	}
 	w.finish()
+	if c.CloseTail && (o.Props["C05"] || o.Props["C06"]) && w.cfgFixed {
+		w.closeTail()
+	}
 	return
+}
+
+// closeTail: gRPC closes the balancer when the channel shuts down, but RPCs in flight still complete afterwards and a
+// pick may still be running on a picker published earlier. Nothing is compared with the model any more: the calls
+// must return and must not panic (C05; the watchdog covers C06).
+func (w *world) closeTail() {
+	w.step = len(w.c.Ops)
+	CurOp.Store("Close and what follows")
+	InOp.Store(true)
+	defer InOp.Store(false)
+	guard := func(what string, f func()) {
+		defer func() {
+			if r := recover(); r != nil {
+				w.fail("C05", "panic", "%s after Close panicked: %v\n%s", what, r, debug.Stack())
+			}
+		}()
+		OpCounter.Add(1)
+		f()
+	}
+	guard("Close", func() { w.b.Close() })
+	w.labels["balancer-closed-then-late-calls"]++
+	time.Sleep(2 * time.Second) // every deadline of an open call has passed (virtual time)
+	for i := len(w.calls) - 1; i >= 0; i-- {
+		cl := w.calls[i]
+		err := status.Error(codes.DeadlineExceeded, deText)
+		if i%3 == 0 {
+			err = nil
+		}
+		guard(fmt.Sprintf("completion of call#%d (%v)", cl.id, err), func() { cl.done(balancer.DoneInfo{Err: err}) })
+	}
+	w.calls = nil
+	n := len(w.pubs)
+	for k := 0; k < 3 && k < n; k++ {
+		pk := w.pubs[n-1-k].picker
+		for _, m := range []string{"/plain", "/bind", "/bound", "/unbind"} {
+			ctx, cancel := context.WithTimeout(ictx(context.Background(), &Msg{Key: "k1", Keys: []string{"k1"}}, &Msg{Key: "k1", Keys: []string{"k1"}}), 5*time.Millisecond)
+			guard("Pick("+m+")", func() {
+				ch := make(chan struct{})
+				go func() {
+					defer close(ch)
+					defer func() {
+						if r := recover(); r != nil {
+							w.latePanic = fmt.Sprintf("Pick(%s) after Close panicked: %v", m, r)
+						}
+					}()
+					if res, err := pk.Pick(balancer.PickInfo{FullMethodName: m, Ctx: ctx}); err == nil && res.Done != nil {
+						res.Done(balancer.DoneInfo{})
+					}
+				}()
+				time.Sleep(200 * time.Millisecond) // a round-robin BIND may wait for its context
+				synctest.Wait()
+				<-ch
+			})
+			cancel()
+			if w.latePanic != "" {
+				w.fail("C05", "panic", "%s", w.latePanic)
+			}
+		}
+	}
 }
 
 // tick advances 1 ns (no two ops share an instant) and steps over deadline ties.
